@@ -350,8 +350,107 @@ def _model_units():
                     okargs = isinstance(kw.get("bit_resolution"), VInt) and kw["bit_resolution"].v == bits and isinstance(kw.get("voltage_min"), VFloat) and z3.eq(kw["voltage_min"].v, LO) \
                         and isinstance(kw.get("voltage_max"), VFloat) and z3.eq(kw["voltage_max"].v, HI)
                     u.oblige(p, f"model.simple_adc.converter_settings_of_the_detector[{bits},{data_type}]", bool(okargs), {}, MODEL_REPLAY)
+                    sig_in, sig0 = kw.get("signal"), p.ex.hold["signal"]
+                    sig0 = sig0.val if isinstance(sig0, VMaybe) else sig0
+                    img = p.st.cell(p.ex.det_parts["image"]).fields.get("_array")
+                    flows = isinstance(sig_in, VRef) and sig_in.addr == sig0.addr and p.ex.is_arr(img)
+                    u.oblige(p, f"model.simple_adc.digitises_the_detector_signal_into_the_image[{bits},{data_type}]",
+                             z3.And(zb(bool(flows)), (to_real(p.st.cell(img).elem(D.GEN)) == z3.ToReal(z3.Int("code"))) if flows else z3.BoolVal(False)), {}, MODEL_REPLAY)
             u.cover(f"model.simple_adc.cover[{bits}]", [1] * n_ok, lambda _: True)
         unit("C16", f"model.simple_adc[{bits}]")(un)
 
 
 _model_units()
+
+
+# ---- the SAR MODELS: what reaches the converters and where the codes go ---------------------------------------------------------
+SAR_MODEL_REPLAY = lambda w: {"code": """
+import numpy as np, verif_probes as VP
+from pyxel.models.readout_electronics import sar_adc, sar_adc_with_noise
+VIOLATED, DETAIL = False, 'both SAR models digitise the detector signal with the detector converter settings; zero noise reproduces the plain model'
+for bits, rng in ((8, (0.0, 5.0)), (12, (0.0, 3.3)), (16, (0.0, 10.0)), (10, (1.0, 5.0))):
+    d1 = VP.detector(adc_bit_resolution=bits, adc_voltage_range=rng); d2 = VP.detector(adc_bit_resolution=bits, adc_voltage_range=rng)
+    sig = np.array([[0.0, rng[1] / 3, rng[1] / 2, rng[1] * 0.999], [rng[1], rng[1] / 7, 0.1, 0.2], [0.3, 0.4, 0.5, 0.6]])
+    d1.signal.array = sig.copy(); d2.signal.array = sig.copy()
+    sar_adc(d1); sar_adc_with_noise(d2, strengths=[0.0] * bits, noises=[0.0] * bits)
+    a, b = d1.image.array, d2.image.array
+    exp = np.minimum(np.floor(sig / rng[1] * 2 ** bits), 2 ** bits - 1)
+    if not np.array_equal(a, b) or not np.array_equal(a.astype(float), exp) or not np.array_equal(d1.signal.array, sig):
+        VIOLATED, DETAIL = True, f'{bits} bits, range {rng}: plain {a[0].tolist()} zero-noise {b[0].tolist()} expected {exp[0].tolist()}'; break
+    for bad in (dict(strengths=[0.0] * (bits - 1), noises=[0.0] * bits), dict(strengths=[0.0] * bits, noises=[0.0] * (bits + 1)), dict(strengths=[0.0] * bits, noises=[0.0] * (bits - 1))):
+        try:
+            sar_adc_with_noise(d2, **bad); VIOLATED, DETAIL = True, 'a noise vector of the wrong length was accepted'
+        except ValueError:
+            pass
+        except Exception as e:
+            VIOLATED, DETAIL = True, f'a noise vector of the wrong length was not refused up front: {type(e).__name__}' 
+""", "expect": "sar_adc and sar_adc_with_noise hand the detector's signal, geometry, range maximum and bit resolution to their converters and store the codes in the image"}
+
+
+def _sar_model(name, kernel_q, noisy):
+    def un(u: Unit):
+        fi = u.fn(RE + f"{name}.py::{name}")
+        cci = u.cls("pyxel/detectors/characteristics.py::Characteristics")
+        for bits in (8, 16):
+            cfg = D.install(Cfg("real"))
+
+            def core(ex, args, kwargs, fr):
+                ex.hold.setdefault("calls", []).append(dict(kwargs))
+                return arrays.new_array(ex, (D.ROWS, D.COLS), VDtype("uint8" if bits == 8 else "uint16"), lambda ix: VInt(z3.Int("code")))
+            cfg.contracts[kernel_q] = Contract(kernel_q, core, "C16.sar.*: the converter against its recursive specification")
+
+            def setup(ex, bits=bits):
+                det = D.mk_detector(ex, u)
+                st = ex.st
+                ex.hold = {}
+                st.cell(det).fields["_characteristics"] = st.alloc(HObj(cci, {"_adc_bit_resolution": VInt(bits), "_adc_voltage_range": VTuple([VFloat(LO), VFloat(HI)])}))
+                sig = D.sym_frame(ex, "signal_in")
+                st.cell(ex.det_parts["signal"]).fields["_array"] = sig
+                ex.hold["signal"] = sig
+                ex.hold["others"] = {k: st.cell(ex.det_parts[k]).fields.get("_array") for k in ("photon", "pixel", "charge")}
+                if not noisy:
+                    return [det], {}
+                ex.hold["str"] = [VFloat(z3.Real(f"strength{i}")) for i in range(bits)]
+                ex.hold["noi"] = [VFloat(z3.Real(f"noise{i}")) for i in range(bits)]
+                short = 1 if ex.st.branch(z3.Bool("strengths_too_short")) else (2 if ex.st.branch(z3.Bool("noises_too_short")) else 0)
+                ex.hold["short"] = short
+                return [det], {"strengths": st.alloc(HList(ex.hold["str"][: bits - 1] if short == 1 else list(ex.hold["str"]))),
+                               "noises": st.alloc(HList(ex.hold["noi"][: bits - 1] if short == 2 else list(ex.hold["noi"])))}
+            ps = u.paths(fi, setup, cfg, label=f"{name}[{bits}]")
+            for p in ps:
+                h = p.ex.hold
+                img = p.st.cell(p.ex.det_parts["image"]).fields.get("_array")
+                if noisy and h.get("short"):
+                    u.oblige(p, f"model.{name}.refuses_wrong_vector_length[{bits}]", p.kind == "raise" and p.exc_name() == "ValueError" and not h.get("calls"), {}, SAR_MODEL_REPLAY)
+                    continue
+                if p.kind != "return":
+                    u.oblige(p, f"model.{name}.no_raise[{bits}]", False, {"exc": p.exc_name()}, SAR_MODEL_REPLAY)
+                    continue
+                calls = h.get("calls", [])
+                ok = len(calls) == 1
+                c = calls[0] if ok else {}
+                ok = ok and isinstance(c.get("signal_2d"), VRef) and isinstance(h["signal"], (VRef, VMaybe)) and c["signal_2d"].addr == (h["signal"].val if isinstance(h["signal"], VMaybe) else h["signal"]).addr
+                ok = ok and isinstance(c.get("adc_bits"), VInt) and c["adc_bits"].v == bits and isinstance(c.get("max_volt"), VFloat) and z3.eq(c["max_volt"].v, HI)
+                ok = ok and isinstance(c.get("num_rows"), VInt) and z3.eq(z_int(c["num_rows"].v), D.ROWS) and isinstance(c.get("num_cols"), VInt) and z3.eq(z_int(c["num_cols"].v), D.COLS)
+                if ok and not noisy:
+                    ok = c.get("min_volt") is None or (isinstance(c["min_volt"], VFloat) and z3.eq(c["min_volt"].v, LO))
+                u.oblige(p, f"model.{name}.converter_gets_detector_signal_and_settings[{bits}]", bool(ok), {"got": str({k: str(v)[:40] for k, v in c.items()})[:300]}, SAR_MODEL_REPLAY)
+                if noisy and ok:
+                    def arr_is(v, items):
+                        if not p.ex.is_arr(v):
+                            return z3.BoolVal(False)
+                        cc = p.st.cell(v)
+                        if len(cc.shape) != 1 or not is_conc(cc.shape[0]) or cc.shape[0] != len(items):
+                            return z3.BoolVal(False)
+                        return z3.And(*[to_real(cc.elem((i,))) == to_real(items[i]) for i in range(len(items))])
+                    u.oblige(p, f"model.{name}.own_noise_vectors[{bits}]", z3.And(arr_is(c.get("strengths"), h["str"]), arr_is(c.get("noises"), h["noi"])), {}, SAR_MODEL_REPLAY)
+                stored = p.ex.is_arr(img) and is_conc(p.st.cell(img).dtype.v) and p.st.cell(img).dtype.v == ("uint8" if bits == 8 else "uint16")
+                u.oblige(p, f"model.{name}.codes_stored_in_the_image[{bits}]", z3.And(zb(bool(stored)), (to_real(p.st.cell(img).elem(D.GEN)) == z3.ToReal(z3.Int("code"))) if stored else z3.BoolVal(False)), {}, SAR_MODEL_REPLAY)
+                same = all(p.st.cell(p.ex.det_parts[k]).fields.get("_array") is v for k, v in h["others"].items()) and p.st.cell(p.ex.det_parts["signal"]).fields.get("_array") is h["signal"]
+                u.oblige(p, f"model.{name}.nothing_else_written[{bits}]", bool(same), {}, SAR_MODEL_REPLAY)
+            u.cover(f"model.{name}.cover[{bits}]", ps, lambda p: p.kind == "return")
+    return un
+
+
+unit("C16", "model.sar_adc")(_sar_model("sar_adc", RE + "sar_adc.py::apply_sar_adc", False))
+unit("C16", "model.sar_adc_with_noise")(_sar_model("sar_adc_with_noise", RE + "sar_adc_with_noise.py::apply_sar_adc_with_noise", True))
